@@ -103,6 +103,20 @@ TEMPLATES = [
 (assert (e true q (and p q)))
 (assert (e false true (not (=> q false))))
 ''',
+    # operands whose width ddSMT cannot infer (an operator missing from its
+    # tables, an uninterpreted function) below concat, under the extraction
+    # and extension rewrites that compute with widths
+    '''(declare-const a (_ BitVec 2))
+(declare-const b (_ BitVec 2))
+(declare-const c (_ BitVec 2))
+(declare-fun uf ((_ BitVec 2)) (_ BitVec 2))
+(assert (= ((_ extract 4 2) ((_ zero_extend 3) (concat a (bvlshr b c)))) #b000))
+(assert (= ((_ extract 3 1) ((_ zero_extend 3) (concat a (uf b)))) #b000))
+(assert (= ((_ zero_extend 1) ((_ zero_extend 2) (concat a (bvlshr b c)))) #b0000000))
+(assert (= ((_ extract 5 3) ((_ zero_extend 2) (concat (bvlshr b c) a))) #b000))
+(assert (= ((_ extract 6 1) ((_ zero_extend 3) (concat a (uf b) c))) #b000000))
+(assert (= ((_ extract 2 0) ((_ sign_extend 3) (concat a (bvlshr b c)))) #b000))
+''',
     # previous bit-width reductions
     '''(declare-const __w (_ BitVec 2))
 (define-fun _w () (_ BitVec 5) ((_ zero_extend 3) __w))
